@@ -24,6 +24,11 @@
 #include <opm/input/eclipse/Units/UnitSystem.hpp>
 #include <opm/output/eclipse/Summary.hpp>
 #include <opm/output/eclipse/Inplace.hpp>
+#include <opm/output/eclipse/RegionCache.hpp>
+#include <opm/io/eclipse/SummaryNode.hpp>
+#include <opm/io/eclipse/EclFile.hpp>
+#include <opm/input/eclipse/Schedule/Well/Connection.hpp>
+#include <opm/input/eclipse/Schedule/Well/WellConnections.hpp>
 #include <opm/output/data/Wells.hpp>
 #include <opm/output/data/Groups.hpp>
 #include <opm/common/utility/TimeService.hpp>
@@ -56,6 +61,25 @@ const std::vector<std::string> kSuffix = {
     "GPRS", "GPRF", "OPRS", "OPRF", "GPTS", "GPTF", "OPTS", "OPTF",
     "NPR", "NPT", "NIR", "NIT", "CPR", "CPT", "CIR", "CIT", "SPR", "SPT", "SIR", "SIT",
     "EPR", "EPT", "EIR", "EIT", "GMIR", "GMIT", "GVPR", "GVIR", "WVIR", "CPC", "SPC",
+};
+
+// levels below the well, regions, network nodes (the leaves crate<>, crate_resv<>, cpr, cratel<>, ratel<>,
+// srate<>, segpress<>, region_rate<>, node_pressure of the funs table)
+const std::vector<std::string> kConnKeys = {
+    "CWIR", "CGIR", "COIR", "CVIR", "CCIR", "CSIR", "COIT", "CWIT", "CGIT", "CVIT", "CNIT", "CWPR", "COPR", "CGPR", "CVPR",
+    "CCPR", "CSPR", "CGFR", "COFR", "CWFR", "CWCT", "CGOR", "CNFR", "CWPT", "COPT", "CGPT", "CVPT", "CNPT", "CCIT", "CCPT",
+    "CSIT", "CSPT", "CGFRF", "CGFRS", "COFRF", "COFRS", "CPR",
+    "CGIRL", "CGITL", "CWIRL", "CWITL", "CWPRL", "CWPTL", "COPRL", "COPTL", "CGPRL", "CGPTL", "COFRL", "CGORL", "CWCTL",
+};
+const std::vector<std::string> kWellComplKeys = {
+    "WWPTL", "WGPTL", "WOPTL", "WWPRL", "WGPRL", "WOPRL", "WOFRL", "WWIRL", "WWITL", "WGIRL", "WGITL", "WLPTL", "WWCTL", "WGORL",
+};
+const std::vector<std::string> kSegKeys = {
+    "SOFR", "SOFT", "SOFRF", "SOFRS", "SGFR", "SGFT", "SGFRF", "SGFRS", "SWFR", "SWFT", "SGOR", "SOGR", "SWCT", "SWGR",
+    "SPR", "SPRD", "SPRDH", "SPRDF", "SPRDA",
+};
+const std::vector<std::string> kRegKeys = {
+    "ROIR", "RGIR", "RWIR", "ROPR", "RGPR", "RWPR", "ROIT", "RGIT", "RWIT", "ROPT", "RGPT", "RWPT", "ROPR_ABC", "RWIT_ABC", "RGPT_ABC",
 };
 
 const std::vector<std::pair<std::string, M>> kMeasures = {
@@ -98,6 +122,11 @@ struct WellSpec {
     std::vector<double> wefac;       // per sim step
     std::vector<std::string> status; // per sim step: OPEN / STOP / SHUT
     std::vector<double> orat, wrat, grat, irat;  // deck units, per sim step
+    int k1 = 1, k2 = 2;              // connected layers
+    std::vector<int> complOf;        // completion number per connected layer (COMPLUMP); empty = default numbering
+    bool msw = false;                // multi-segment well: segment 1 + one segment per connection
+    int gidx(int k) const { return (i - 1) + 10 * (j - 1) + 100 * (k - 1); }
+    int complnum(int k) const { return complOf.empty() ? (k - k1 + 1) : complOf[k - k1]; }
 };
 
 struct Case {
@@ -132,7 +161,12 @@ double randRate(vh::Rng& rng) {
     return std::strtod(num(rng.unit() * (rng.coin() ? 100.0 : 20000.0)).c_str(), nullptr);
 }
 
-Case makeCase(vh::Rng& rng, const std::vector<std::string>& keys, bool thorough) {
+int fipnumOf(int gidx) { const int x = gidx % 10, z = gidx / 100; return 1 + (x >= 5 ? 1 : 0) + (z >= 2 ? 2 : 0); }
+int fipabcOf(int gidx) { return 1 + gidx / 100; }
+
+struct XKeys { std::vector<std::string> conn, wcompl, seg, reg; bool gpr = false; };
+
+Case makeCase(vh::Rng& rng, const std::vector<std::string>& keys, bool thorough, const XKeys* xk = nullptr) {
     Case c;
     static const std::vector<std::string> us = {"METRIC", "FIELD", "LAB", "PVT-M"};
     c.units = rng.pick(us);
@@ -180,6 +214,12 @@ Case makeCase(vh::Rng& rng, const std::vector<std::string>& keys, bool thorough)
         static const std::vector<std::string> it = {"WATER", "GAS", "OIL"};
         ws.injType = rng.pick(it);
         ws.firstStep = (c.nsteps > 1 && rng.coin(1, 5)) ? rng.range(1, c.nsteps - 1) : 0;
+        if (xk) {
+            static const std::vector<std::pair<int,int>> spans = {{1, 1}, {1, 2}, {1, 3}, {2, 3}, {1, 3}};
+            const auto sp = rng.pick(spans); ws.k1 = sp.first; ws.k2 = sp.second;
+            if (rng.coin(1, 2)) for (int k = ws.k1; k <= ws.k2; ++k) ws.complOf.push_back(rng.range(1, 2));
+            ws.msw = ws.producer && rng.coin(1, 3);
+        }
         double f = randFac(rng);
         std::string st = "OPEN";
         double o = randRate(rng), wq = randRate(rng), gq = randRate(rng), iq = randRate(rng);
@@ -201,25 +241,77 @@ Case makeCase(vh::Rng& rng, const std::vector<std::string>& keys, bool thorough)
     d << "RUNSPEC\nTITLE\nC09\nDIMENS\n 10 10 3 /\nOIL\nGAS\nWATER\n" << c.units << "\n"
       << "START\n " << c.day << " '" << kMonths[c.month - 1] << "' " << c.year << " /\n"
       << "WELLDIMS\n 40 10 20 40 /\nUNIFIN\nUNIFOUT\n"
+      << (xk ? "REGDIMS\n 4 2 1* 1* /\nWSEGDIMS\n 12 6 3 /\nNETWORK\n 12 12 /\n" : "")
       << "GRID\nDX\n300*100 /\nDY\n300*100 /\nDZ\n300*10 /\nTOPS\n100*2000 /\n"
       << "PORO\n300*0.2 /\nPERMX\n300*100 /\nPERMY\n300*100 /\nPERMZ\n300*10 /\n"
-      << "SUMMARY\nDATE\n";
+      ;
+    if (xk) {
+        d << "REGIONS\nFIPNUM\n";
+        for (int g = 0; g < 300; ++g) d << ' ' << fipnumOf(g) << (g % 20 == 19 ? "\n" : "");
+        d << "/\nFIPABC\n";
+        for (int g = 0; g < 300; ++g) d << ' ' << fipabcOf(g) << (g % 20 == 19 ? "\n" : "");
+        d << "/\n";
+    }
+    d << "SUMMARY\nDATE\n";
     for (const auto& k : keys) {
         d << k << "\n";
         if (k[0] != 'F') d << "/\n";
+    }
+    if (xk) {
+        for (const auto& k : xk->conn) d << k << "\n '*' /\n/\n";
+        for (const auto& k : xk->wcompl) {
+            d << k << "\n";
+            for (const auto& w : c.wells) {
+                std::set<int> cn; for (int kk = w.k1; kk <= w.k2; ++kk) cn.insert(w.complnum(kk));
+                for (int n : cn) d << " '" << w.name << "' " << n << " /\n";
+            }
+            d << "/\n";
+        }
+        bool anyMsw = false; for (const auto& w : c.wells) anyMsw = anyMsw || w.msw;
+        if (anyMsw)
+            for (const auto& k : xk->seg) {
+                d << k << "\n";
+                for (const auto& w : c.wells) if (w.msw) d << " '" << w.name << "' /\n";
+                d << "/\n";
+            }
+        for (const auto& k : xk->reg) d << k << "\n/\n";
+        if (xk->gpr) d << "GPR\n/\nNPR\n/\nGNETPR\n/\n";
     }
     d << "SCHEDULE\nGRUPTREE\n";
     for (const auto& g : c.groups)
         d << " '" << g.name << "' '" << (g.parent < 0 ? std::string("FIELD") : c.groups[g.parent].name) << "' /\n";
     d << "/\n";
+    if (xk && xk->gpr) {
+        // extended network along the group tree: every group is a node, FIELD the fixed-pressure terminal
+        d << "BRANPROP\n";
+        for (const auto& g : c.groups)
+            d << " '" << g.name << "' '" << (g.parent < 0 ? std::string("FIELD") : c.groups[g.parent].name) << "' 9999 /\n";
+        d << "/\nNODEPROP\n 'FIELD' 20 /\n";
+        for (const auto& g : c.groups) d << " '" << g.name << "' /\n";
+        d << "/\n";
+    }
     for (int s = 0; s < c.nsteps; ++s) {
-        std::ostringstream ws, cd, hist, injh, wef, gef;
+        std::ostringstream ws, cd, cl, sg, hist, injh, wef, gef;
         for (const auto& w : c.wells) {
             if (w.firstStep > s) continue;
             if (w.firstStep == s) {
                 ws << " '" << w.name << "' '" << c.groups[w.group].name << "' " << w.i << " " << w.j << " 1* '"
                    << (w.producer ? "OIL" : (w.injType == "GAS" ? "GAS" : "WATER")) << "' /\n";
-                cd << " '" << w.name << "' " << w.i << " " << w.j << " 1 2 'OPEN' 1* 1* 0.2 /\n";
+                cd << " '" << w.name << "' " << w.i << " " << w.j << " " << w.k1 << " " << w.k2 << " 'OPEN' 1* 1* 0.2 /\n";
+                if (!w.complOf.empty())
+                    for (int kk = w.k1; kk <= w.k2; ++kk)
+                        cl << " '" << w.name << "' " << w.i << " " << w.j << " " << kk << " " << kk << " " << w.complnum(kk) << " /\n";
+                if (w.msw) {
+                    sg << "WELSEGS\n '" << w.name << "' 2000 0 1* 'INC' 'HFA' /\n";
+                    for (int kk = w.k1; kk <= w.k2; ++kk) {
+                        const int sno = kk - w.k1 + 2;
+                        sg << " " << sno << " " << sno << " 1 " << (sno - 1) << " 10 10 0.2 0.0001 /\n";
+                    }
+                    sg << "/\nCOMPSEGS\n '" << w.name << "' /\n";
+                    for (int kk = w.k1; kk <= w.k2; ++kk)
+                        sg << " " << w.i << " " << w.j << " " << kk << " 1 " << (kk - w.k1) * 10 << " " << (kk - w.k1 + 1) * 10 << " /\n";
+                    sg << "/\n";
+                }
             }
             const bool first = (w.firstStep == s);
             const bool ratesChanged = first || w.orat[s] != w.orat[s-1] || w.wrat[s] != w.wrat[s-1] ||
@@ -238,6 +330,8 @@ Case makeCase(vh::Rng& rng, const std::vector<std::string>& keys, bool thorough)
             if ((s == 0 && g.gefac[0] != 1.0) || (s > 0 && g.gefac[s] != g.gefac[s-1]))
                 gef << " '" << g.name << "' " << num(g.gefac[s]) << " /\n";
         if (!ws.str().empty()) d << "WELSPECS\n" << ws.str() << "/\nCOMPDAT\n" << cd.str() << "/\n";
+        if (!cl.str().empty()) d << "COMPLUMP\n" << cl.str() << "/\n";
+        d << sg.str();
         if (!hist.str().empty()) d << "WCONHIST\n" << hist.str() << "/\n";
         if (!injh.str().empty()) d << "WCONINJH\n" << injh.str() << "/\n";
         if (!wef.str().empty()) d << "WEFAC\n" << wef.str() << "/\n";
@@ -263,7 +357,7 @@ struct Real {
     {}
 };
 
-data::Wells makeWellData(vh::Rng& rng, const Case& c, int simStep, vh::Sink* sink) {
+data::Wells makeWellData(vh::Rng& rng, const Case& c, int simStep, vh::Sink* sink, bool ext = false) {
     data::Wells out;
     // small but non-zero rates (SI, m3/s): 1e-9 ... 1e-14, far below any "looks like zero" threshold but
     // perfectly good numbers (core floods in LAB units, nearly dead wells).  Either every well of the
@@ -291,6 +385,57 @@ data::Wells makeWellData(vh::Rng& rng, const Case& c, int simStep, vh::Sink* sin
             double sign = w.producer ? -1.0 : 1.0;
             if (rng.coin(1, 8)) sign = -sign;                 // cross flow
             dw.rates.set(pr.second, sign * mag);
+        }
+        if (ext) {
+            // rarely the simulator runs a well under the opposite control type
+            if (rng.coin(1, 12)) { dw.current_control.isProducer = !w.producer; if (sink) sink->count("well.type_flipped"); }
+            // connection results: either a consistent split of the well rates (same sign, fractions summing to
+            // one) or independent numbers; sometimes a connection is missing, sometimes there is an extra one
+            const bool split = rng.coin(1, 2);
+            if (sink) sink->count(split ? "conn.split_of_well_rates" : "conn.independent");
+            const int nc = w.k2 - w.k1 + 1;
+            std::vector<double> frac(nc);
+            { double t = 0; for (auto& f : frac) { f = 0.05 + rng.unit(); t += f; } for (auto& f : frac) f /= t; }
+            const bool dropOne = !split && rng.coin(1, 6);
+            const int dropK = w.k1 + rng.range(0, nc - 1);
+            for (int k = w.k1; k <= w.k2; ++k) {
+                if (dropOne && k == dropK) { if (sink) sink->count("conn.missing_in_results"); continue; }
+                data::Connection cn;
+                cn.index = static_cast<std::size_t>(w.gidx(k));
+                for (const auto& pr : kRates) {
+                    if (split) { if (dw.rates.has(pr.second)) cn.rates.set(pr.second, dw.rates.get(pr.second) * frac[k - w.k1]); continue; }
+                    if (rng.coin(1, 10)) continue;
+                    double mag = rng.unit() * (rng.coin() ? 1e-3 : 1.0);
+                    if (tinyMode == 0) mag = (0.05 + rng.unit()) * tinyScale;
+                    if (rng.coin(1, 15)) mag = 0.0;
+                    double sign = w.producer ? -1.0 : 1.0;
+                    if (rng.coin(1, 8)) sign = -sign;
+                    cn.rates.set(pr.second, sign * mag);
+                }
+                cn.reservoir_rate = (w.producer ? -1.0 : 1.0) * (rng.coin(1, 8) ? -1.0 : 1.0) * rng.unit() * (rng.coin(1, 10) ? 0.0 : 1.0);
+                cn.pressure = 1e5 + rng.unit() * 4e7;
+                dw.connections.push_back(cn);
+                if (sink) sink->count("conn.results");
+            }
+            if (rng.coin(1, 10)) { data::Connection cn; cn.index = 299 - static_cast<std::size_t>(w.gidx(w.k1)) % 100; cn.rates.set(rt::oil, -1.0); dw.connections.push_back(cn); }
+            if (w.msw)
+                for (int sno = 1; sno <= nc + 1; ++sno) {
+                    if (rng.coin(1, 12)) { if (sink) sink->count("seg.missing_in_results"); continue; }
+                    data::Segment sg;
+                    sg.segNumber = static_cast<std::size_t>(sno);
+                    for (const auto& pr : kRates) {
+                        if (rng.coin(1, 10)) continue;
+                        double mag = rng.unit() * (rng.coin() ? 1e-3 : 1.0);
+                        if (tinyMode == 0) mag = (0.05 + rng.unit()) * tinyScale;
+                        if (rng.coin(1, 15)) mag = 0.0;
+                        sg.rates.set(pr.second, (rng.coin(1, 6) ? 1.0 : -1.0) * mag);
+                    }
+                    using SP = data::SegmentPressures::Value;
+                    for (SP v : {SP::Pressure, SP::PDrop, SP::PDropHydrostatic, SP::PDropAccel, SP::PDropFriction})
+                        sg.pressures[v] = (v == SP::Pressure ? 1e5 + rng.unit() * 4e7 : (rng.unit() - 0.3) * 1e6);
+                    dw.segments.emplace(sg.segNumber, sg);
+                    if (sink) sink->count("seg.results");
+                }
         }
         out[w.name] = dw;
     }
@@ -339,6 +484,143 @@ std::string dumpState(const Real& R, const SummaryState& st, int simStep, const 
     return o.str();
 }
 
+data::GroupAndNetworkValues makeNetData(vh::Rng& rng, const Case& c) {
+    data::GroupAndNetworkValues out;
+    for (const auto& g : c.groups)
+        if (rng.coin(2, 3)) { auto& nd = out.nodeData[g.name]; nd.pressure = 1e5 + rng.unit() * 3e7; nd.converged_pressure = 1e5 + rng.unit() * 3e7; }
+    if (rng.coin(2, 3)) { auto& nd = out.nodeData["FIELD"]; nd.pressure = 2e6; nd.converged_pressure = 2e6 + rng.unit(); }
+    return out;
+}
+
+// ---- nodes below the well level, regions, network nodes ------------------------------------------
+struct XNode {
+    char kind;                       // C connection, L completion, S segment, R region, N group (network node)
+    std::string name;                // well / group; region set for R
+    int number;
+    std::vector<std::pair<std::string, std::string>> keys;   // (normalised key = table key, keyword of the node)
+};
+
+std::vector<XNode> collectXNodes(const SummaryConfig& cfg) {
+    std::map<std::tuple<char, std::string, int>, XNode> m;
+    using Cat = SummaryConfigNode::Category;
+    for (const auto& n : cfg) {
+        char kind = 0; std::string name = n.namedEntity(); std::string key = n.keyword();
+        switch (n.category()) {
+        case Cat::Connection: kind = 'C'; break;
+        case Cat::Completion: kind = 'L'; key = EclIO::SummaryNode::normalise_keyword(EclIO::SummaryNode::Category::Completion, key); break;
+        case Cat::Segment: kind = 'S'; break;
+        case Cat::Region: kind = 'R'; name = n.fip_region(); key = EclIO::SummaryNode::normalise_region_keyword(key); break;
+        case Cat::Node: if (n.keyword() == "GPR" || n.keyword() == "NPR" || n.keyword() == "GNETPR") kind = 'N'; break;
+        default: break;
+        }
+        if (!kind) continue;
+        auto& x = m[{kind, name, kind == 'N' ? 0 : n.number()}];
+        x.kind = kind; x.name = name; x.number = kind == 'N' ? 0 : n.number();
+        x.keys.emplace_back(key, n.keyword());
+    }
+    std::vector<XNode> out;
+    for (auto& kv : m) out.push_back(kv.second);
+    return out;
+}
+
+bool xget(const SummaryState& st, const XNode& n, const std::pair<std::string, std::string>& k, double& v) {
+    const auto num = static_cast<std::size_t>(n.number);
+    switch (n.kind) {
+    case 'C': if (!st.has_conn_var(n.name, k.second, num)) return false; v = st.get_conn_var(n.name, k.second, num); return true;
+    case 'S': if (!st.has_segment_var(n.name, k.second, num)) return false; v = st.get_segment_var(n.name, k.second, num); return true;
+    case 'R': if (!st.has_region_var(n.name, k.second, num)) return false; v = st.get_region_var(n.name, k.second, num); return true;
+    case 'N': if (!st.has_group_var(n.name, k.second)) return false; v = st.get_group_var(n.name, k.second); return true;
+    default: {
+        const std::string key = k.first + ":" + n.name + ":" + std::to_string(n.number);
+        if (!st.has(key)) return false; v = st.get(key); return true; }
+    }
+}
+
+// the W section restricted to `only` (empty = all) + the sections of the xnode op
+std::string dumpStateX(const Real& R, const SummaryState& st, int simStep, const data::Wells& wd, const data::GroupAndNetworkValues& net,
+                       const XNode& n, const std::vector<std::pair<std::string, std::size_t>>& rconns) {
+    std::set<std::string> only;
+    if (n.kind == 'R') for (const auto& rc : rconns) only.insert(rc.first);
+    else if (n.kind != 'N') only.insert(n.name);
+    std::ostringstream o;
+    auto gnames = R.sched.groupNames(simStep);
+    std::sort(gnames.begin(), gnames.end());
+    o << "G " << gnames.size();
+    for (const auto& gn : gnames) {
+        const auto& g = R.sched.getGroup(gn, simStep);
+        const auto par = g.flow_group();
+        o << ' ' << gn << ' ' << (par ? *par : std::string("-")) << ' ' << vh::hexF64(g.getGroupEfficiencyFactor())
+          << ' ' << joinOrDash(g.groups()) << ' ' << joinOrDash(g.wells());
+    }
+    std::vector<std::string> wnames;
+    for (const auto& wn : R.sched.wellNames(simStep)) if (only.empty() || only.count(wn)) wnames.push_back(wn);
+    std::sort(wnames.begin(), wnames.end());
+    o << " W " << wnames.size();
+    for (const auto& wn : wnames) {
+        const auto& w = R.sched.getWell(wn, simStep);
+        auto it = wd.find(wn);
+        const char* dyn = (it == wd.end()) ? "A" : (it->second.dynamicStatus == Well::Status::SHUT ? "S" : "O");
+        o << ' ' << wn << ' ' << w.groupName() << ' ' << w.seqIndex() << ' ' << vh::hexF64(w.getEfficiencyFactor()) << ' ' << dyn;
+        std::vector<std::pair<std::string, double>> rs;
+        if (it != wd.end())
+            for (const auto& pr : kRates)
+                if (it->second.rates.has(pr.second)) rs.emplace_back(pr.first, it->second.rates.get(pr.second));
+        o << ' ' << rs.size();
+        for (const auto& r : rs) o << ' ' << r.first << ' ' << vh::hexF64(r.second);
+        for (auto ph : {Phase::WATER, Phase::OIL, Phase::GAS}) o << ' ' << vh::hexF64(w.production_rate(st, ph));
+        for (auto ph : {Phase::WATER, Phase::OIL, Phase::GAS}) o << ' ' << vh::hexF64(w.injection_rate(st, ph));
+    }
+    o << " SC " << wnames.size();
+    for (const auto& wn : wnames) {
+        const auto& conns = R.sched.getWell(wn, simStep).getConnections();
+        o << ' ' << wn << ' ' << conns.size();
+        for (const auto& cn : conns) o << ' ' << cn.global_index() << ' ' << cn.complnum();
+    }
+    auto rateList = [&](const data::Rates& r) {
+        std::vector<std::pair<std::string, double>> rs;
+        for (const auto& pr : kRates) if (r.has(pr.second)) rs.emplace_back(pr.first, r.get(pr.second));
+        std::ostringstream t; t << rs.size();
+        for (const auto& x : rs) t << ' ' << x.first << ' ' << vh::hexF64(x.second);
+        return t.str();
+    };
+    std::vector<std::string> xnames;
+    for (const auto& kv : wd) if (only.empty() || only.count(kv.first)) xnames.push_back(kv.first);
+    std::sort(xnames.begin(), xnames.end());
+    o << " X " << xnames.size();
+    for (const auto& wn : xnames) {
+        const auto& dw = wd.at(wn);
+        o << ' ' << wn << ' ' << (dw.dynamicStatus == Well::Status::SHUT ? "S" : "O") << ' ' << (dw.current_control.isProducer ? "P" : "I")
+          << ' ' << dw.connections.size();
+        for (const auto& cn : dw.connections)
+            o << ' ' << cn.index << ' ' << rateList(cn.rates) << ' ' << vh::hexF64(cn.reservoir_rate) << ' ' << vh::hexF64(cn.pressure);
+        o << ' ' << dw.segments.size();
+        using SP = data::SegmentPressures::Value;
+        for (const auto& sg : dw.segments) {
+            o << ' ' << sg.first << ' ' << rateList(sg.second.rates);
+            for (SP v : {SP::Pressure, SP::PDrop, SP::PDropHydrostatic, SP::PDropAccel, SP::PDropFriction}) o << ' ' << vh::hexF64(sg.second.pressures[v]);
+        }
+    }
+    o << " RC " << rconns.size();
+    for (const auto& rc : rconns) o << ' ' << rc.first << ' ' << rc.second;
+    auto np = net.nodeData.find(n.name);
+    const bool hasN = n.kind == 'N' && np != net.nodeData.end();
+    o << " N " << (hasN ? 1 : 0) << ' ' << vh::hexF64(hasN ? np->second.pressure : 0.0) << ' ' << vh::hexF64(hasN ? np->second.converged_pressure : 0.0);
+    const auto& us = R.es.getUnits();
+    o << " U " << kMeasures.size();
+    for (const auto& m : kMeasures) o << ' ' << m.first << ' ' << vh::hexF64(us.from_si(m.second, 1.0));
+    return o.str();
+}
+
+XKeys recognisedXKeys(const Parser& parser, std::map<std::string, long>& stats) {
+    XKeys xk;
+    auto add = [&](const std::vector<std::string>& from, std::vector<std::string>& to) {
+        for (const auto& k : from) if (parser.isRecognizedKeyword(k)) to.push_back(k); else { ++stats["key.unknown_to_parser"]; ++stats["unknown_to_parser." + k]; }
+    };
+    add(kConnKeys, xk.conn); add(kWellComplKeys, xk.wcompl); add(kSegKeys, xk.seg); add(kRegKeys, xk.reg);
+    xk.gpr = parser.isRecognizedKeyword("GPR") && parser.isRecognizedKeyword("NPR") && parser.isRecognizedKeyword("GNETPR");
+    return xk;
+}
+
 struct Eval { int reportStep; double secs; };
 
 std::vector<Eval> makeEvals(vh::Rng& rng, const Case& c, const Real& R) {
@@ -379,10 +661,11 @@ int runCorr(uint64_t seed, bool thorough, const std::string& outdir) {
     vh::Rng rng(seed);
     Parser parser;
     const auto keys = recognisedKeys(parser, sink.stats);
+    const XKeys xkeys = recognisedXKeys(parser, sink.stats);
     const int ncases = thorough ? 260 : 36;
     const std::string tol = vh::hexF64(1e-12);
     for (int ci = 0; ci < ncases; ++ci) {
-        Case c = makeCase(rng, keys, thorough);
+        Case c = makeCase(rng, keys, thorough, &xkeys);
         std::unique_ptr<Real> Rp;
         try { Rp = std::make_unique<Real>(c.deck, parser); }
         catch (const std::exception& e) {
@@ -390,6 +673,8 @@ int runCorr(uint64_t seed, bool thorough, const std::string& outdir) {
             return 3;
         }
         Real& R = *Rp;
+        const auto xnodes = collectXNodes(R.cfg);
+        const out::RegionCache regCache(R.cfg.fip_regions(), R.es.fieldProps(), R.es.getInputGrid(), R.sched);
         sink.count("case.units." + c.units);
         sink.count("case.groups", c.groups.size());
         sink.count("case.wells", c.wells.size());
@@ -399,7 +684,11 @@ int runCorr(uint64_t seed, bool thorough, const std::string& outdir) {
         SummaryState st(TimeService::from_time_t(R.sched.getStartTime()), R.es.runspec().udqParams().undefinedValue());
         for (const auto& ev : makeEvals(rng, c, R)) {
             const int simStep = std::max(0, ev.reportStep - 1);
-            const auto wd = makeWellData(rng, c, simStep, &sink);
+            const auto wd = makeWellData(rng, c, simStep, &sink, true);
+            const auto net = makeNetData(rng, c);
+            std::vector<std::vector<double>> xprev(xnodes.size());
+            for (size_t xi = 0; xi < xnodes.size(); ++xi)
+                for (const auto& k : xnodes[xi].keys) { double v = 0.0; xget(st, xnodes[xi], k, v); xprev[xi].push_back(v); }
             // previous values
             struct Node { char cat; std::string name; };
             std::vector<Node> nodes;
@@ -412,7 +701,7 @@ int runCorr(uint64_t seed, bool thorough, const std::string& outdir) {
             const double dt = ev.secs - st.get_elapsed();
             const double elapsedBefore = st.get_elapsed();
             const std::string state = dumpState(R, st, simStep, wd);
-            writer.eval(st, ev.reportStep, ev.secs, wd, {}, {}, {}, {}, {});
+            writer.eval(st, ev.reportStep, ev.secs, wd, {}, net, {}, {}, {});
             {
                 std::ostringstream top;
                 top << "sumfuns.time " << static_cast<long long>(R.sched.getStartTime()) << ' ' << vh::hexF64(elapsedBefore) << ' '
@@ -440,6 +729,27 @@ int runCorr(uint64_t seed, bool thorough, const std::string& outdir) {
                 sink.emit(op.str(), "ok " + std::to_string(nk));
                 sink.count(std::string("node.") + n.cat);
                 sink.count("keys", nk);
+            }
+            for (size_t xi = 0; xi < xnodes.size(); ++xi) {
+                const auto& n = xnodes[xi];
+                // wells / groups the schedule does not know at this step are not evaluated by the real code either way
+                std::ostringstream ks; int nk = 0;
+                for (size_t ki = 0; ki < n.keys.size(); ++ki) {
+                    double v = 0.0;
+                    if (!xget(st, n, n.keys[ki], v)) { sink.count("xkey.not_evaluated"); continue; }
+                    ks << ' ' << n.keys[ki].first << ' ' << vh::hexF64(xprev[xi][ki]) << ' ' << vh::hexF64(v);
+                    ++nk;
+                    sink.count(v != 0.0 ? std::string("xvalue.nonzero.") + n.kind : std::string("xvalue.zero.") + n.kind);
+                }
+                if (!nk) continue;
+                static const std::vector<std::pair<std::string, std::size_t>> noConns;
+                const auto& rconns = n.kind == 'R' ? regCache.connections(n.name, n.number) : noConns;
+                std::ostringstream op;
+                op << "sumfuns.xnode " << (n.kind == 'R' ? "R" : (n.kind == 'N' ? "G" : "S")) << ' ' << (n.kind == 'R' ? std::string("-") : n.name) << ' '
+                   << n.number << ' ' << vh::hexF64(dt) << ' ' << tol << ' ' << dumpStateX(R, st, simStep, wd, net, n, rconns) << " K " << nk << ks.str();
+                sink.emit(op.str(), "ok " + std::to_string(nk));
+                sink.count(std::string("xnode.") + n.kind);
+                sink.count("xkeys", nk);
             }
         }
     }
@@ -492,6 +802,15 @@ const std::vector<RatioDef> kRatios = {
     {"WGRH", "WPRH", {"GPRH"}, true},
 };
 
+// ratio = num / (d1 + d2) where the terms may have opposite signs (connections and segments have no sign filter):
+// the rounding error of the denominator is relative to |d1| + |d2|, not to |d1 + d2| — compare ratio * den with num
+// under that bound (0 iff the denominator is exactly 0)
+bool ratioHolds(double ratio, double nume, double d1, double d2) {
+    const double den = d1 + d2;
+    if (den == 0.0) return ratio == 0.0;
+    return std::fabs(ratio * den - nume) <= 1e-12 * (std::fabs(ratio) * (std::fabs(d1) + std::fabs(d2)) + std::fabs(nume));
+}
+
 struct UnitConst { double liq, gas, resv, timeSec; };   // deck value = SI value * factor ; time: seconds per deck time unit
 UnitConst unitConst(const std::string& u) {
     const double day = 86400.0, stb = 0.158987294928, mscf = 28.316846592;
@@ -506,6 +825,8 @@ int runProp(uint64_t seed, bool thorough, const std::string& outdir) {
     Parser parser;
     std::map<std::string, long> stats;
     const auto keys = recognisedKeys(parser, stats);
+    const XKeys xkeys = recognisedXKeys(parser, stats);
+    std::map<std::string, long> lvlStats;
     const int ncases = thorough ? 300 : 40;
     long noted_checked = 0, noted_dev = 0;
     auto chk = [&](bool ok, const std::string& key, const std::string& detail) {
@@ -535,19 +856,35 @@ int runProp(uint64_t seed, bool thorough, const std::string& outdir) {
         }
     };
     for (int ci = 0; ci < ncases; ++ci) {
-        Case c = makeCase(rng, keys, thorough);
+        Case c = makeCase(rng, keys, thorough, &xkeys);
         std::unique_ptr<Real> Rp;
         try { Rp = std::make_unique<Real>(c.deck, parser); }
         catch (const std::exception& e) { std::cerr << "generated deck rejected: " << e.what() << "\n" << c.deck << std::endl; return 3; }
         Real& R = *Rp;
         const UnitConst uc = unitConst(c.units);
+        const double pf = c.units == "METRIC" ? 1e-5 : (c.units == "FIELD" ? 1.0 / 6894.757293168361 : 1.0 / 101325.0);
         out::Summary writer(R.cfg, R.es, R.es.getInputGrid(), R.sched, outdir + "/PCASE");
         SummaryState st(TimeService::from_time_t(R.sched.getStartTime()), R.es.runspec().udqParams().undefinedValue());
         const std::string tag = "case" + std::to_string(ci) + "/" + c.units;
         double elapsedSec = 0.0;
         for (const auto& ev : makeEvals(rng, c, R)) {
             const int s = std::max(0, ev.reportStep - 1);
-            const auto wd = makeWellData(rng, c, s, nullptr);
+            const auto wd = makeWellData(rng, c, s, nullptr, true);
+            const auto net = makeNetData(rng, c);
+            auto CV = [&](const std::string& w, const std::string& k, int num) { return st.has_conn_var(w, k, num) ? st.get_conn_var(w, k, num) : 0.0; };
+            auto SV = [&](const std::string& w, const std::string& k, int num) { return st.has_segment_var(w, k, num) ? st.get_segment_var(w, k, num) : 0.0; };
+            auto RV = [&](const std::string& set, const std::string& k, int num) { return st.has_region_var(set, k, num) ? st.get_region_var(set, k, num) : 0.0; };
+            auto LV = [&](const std::string& w, const std::string& k, int num) { const std::string key = k + ":" + w + ":" + std::to_string(num); return st.has(key) ? st.get(key) : 0.0; };
+            std::map<std::string, double> xbefore;
+            for (const auto& w : c.wells) {
+                for (int k = w.k1; k <= w.k2; ++k)
+                    for (const char* t : {"COPT", "CWPT", "CGPT", "CWIT", "CGIT", "CVPT", "CVIT", "COPTL", "CWITL"})
+                        xbefore[w.name + "/" + t + "/" + std::to_string(k)] = std::string(t).size() == 5 ? LV(w.name, t, w.gidx(k) + 1) : CV(w.name, t, w.gidx(k) + 1);
+                for (int sno = 1; sno <= w.k2 - w.k1 + 2; ++sno)
+                    for (const char* t : {"SOFT", "SGFT", "SWFT"}) xbefore[w.name + "/" + t + "/" + std::to_string(sno)] = SV(w.name, t, sno);
+                for (int n = 1; n <= 3; ++n) for (const char* t : {"WOPTL", "WGPTL", "WWITL"}) xbefore[w.name + "/" + t + "/" + std::to_string(n)] = LV(w.name, t, n);
+            }
+            for (int r = 1; r <= 4; ++r) for (const char* t : {"ROPT", "RGPT", "RWPT", "ROIT", "RGIT", "RWIT"}) xbefore[std::string("R/") + t + "/" + std::to_string(r)] = RV("FIPNUM", t, r);
             auto W = [&](const std::string& w, const std::string& k) { return st.has_well_var(w, k) ? st.get_well_var(w, k) : 0.0; };
             auto G = [&](const std::string& g, const std::string& k) { return st.has_group_var(g, k) ? st.get_group_var(g, k) : 0.0; };
             auto F = [&](const std::string& k) { return st.has(k) ? st.get(k) : 0.0; };
@@ -559,7 +896,7 @@ int runProp(uint64_t seed, bool thorough, const std::string& outdir) {
                 if (k[0] == 'G') for (const auto& g : c.groups) before[g.name + "/" + k] = G(g.name, k);
             }
             const double dtSec = ev.secs - elapsedSec;
-            writer.eval(st, ev.reportStep, ev.secs, wd, {}, {}, {}, {}, {});
+            writer.eval(st, ev.reportStep, ev.secs, wd, {}, net, {}, {}, {});
             elapsedSec = ev.secs;
             const double dt = dtSec / uc.timeSec;            // deck time units
             const std::string at = tag + "/rs" + std::to_string(ev.reportStep);
@@ -670,6 +1007,200 @@ int runProp(uint64_t seed, bool thorough, const std::string& outdir) {
                 }
             }
 
+
+            // --- below the well level: connections, completions, segments --------------------------
+            for (const auto& w : c.wells) {
+                if (!known(w)) continue;
+                const bool fl = flowing(w);
+                auto it = wd.find(w.name);
+                const double full = w.wefac[s] * groupUp(w.group);
+                const bool isProd = fl && it->second.current_control.isProducer;
+                const bool isInj = fl && !it->second.current_control.isProducer;
+                const std::string a = at + "/" + w.name;
+                auto conn = [&](int k) -> const data::Connection* {
+                    if (!fl) return nullptr;
+                    for (const auto& cn : it->second.connections) if (cn.index == static_cast<std::size_t>(w.gidx(k))) return &cn;
+                    return nullptr;
+                };
+                std::map<int, std::map<std::string, double>> complSum;
+                bool consistent = isProd && w.producer;
+                std::map<rt, double> connTotal;
+                for (int k = w.k1; k <= w.k2; ++k) {
+                    const int num = w.gidx(k) + 1;
+                    const data::Connection* cn = conn(k);
+                    const std::string ak = a + "/k" + std::to_string(k);
+                    struct CR { const char* key; rt p; double f; bool inj; };
+                    for (const CR& cr : { CR{"COPR", rt::oil, uc.liq, false}, CR{"CWPR", rt::wat, uc.liq, false}, CR{"CGPR", rt::gas, uc.gas, false},
+                                          CR{"CWIR", rt::wat, uc.liq, true}, CR{"CGIR", rt::gas, uc.gas, true} }) {
+                        if (!st.has_conn_var(w.name, cr.key, num)) continue;
+                        const double qv = (cn && cn->rates.has(cr.p)) ? cn->rates.get(cr.p) : 0.0;
+                        const double expect = cr.inj ? (isInj ? qv : 0.0) : (isProd ? -qv : 0.0);
+                        chk(close(CV(w.name, cr.key, num), expect * cr.f, 1e-12, 0.0), std::string("conn.rate.") + cr.key,
+                            ak + " got " + g17(CV(w.name, cr.key, num)) + " expected " + g17(expect * cr.f));
+                        ++lvlStats["conn.rate"];
+                    }
+                    if (st.has_conn_var(w.name, "CVPR", num))
+                        chk(close(CV(w.name, "CVPR", num), (isProd && cn) ? -cn->reservoir_rate * uc.resv : 0.0, 1e-12, 0.0), "conn.rate.CVPR", ak);
+                    if (st.has_conn_var(w.name, "CVIR", num))
+                        chk(close(CV(w.name, "CVIR", num), (isInj && cn) ? cn->reservoir_rate * uc.resv : 0.0, 1e-12, 0.0), "conn.rate.CVIR", ak);
+                    if (st.has_conn_var(w.name, "CPR", num))
+                        chk(close(CV(w.name, "CPR", num), cn ? cn->pressure * pf : 0.0, 1e-12, 0.0), "conn.CPR", ak + " got " + g17(CV(w.name, "CPR", num)));
+                    {   // ratios of the connection from its own vectors
+                        if (st.has_conn_var(w.name, "CWCT", num))
+                            chk(ratioHolds(CV(w.name, "CWCT", num), CV(w.name, "CWPR", num), CV(w.name, "CWPR", num), CV(w.name, "COPR", num)), "conn.ratio.CWCT",
+                                ak + " CWCT=" + g17(CV(w.name, "CWCT", num)) + " CWPR=" + g17(CV(w.name, "CWPR", num)) + " COPR=" + g17(CV(w.name, "COPR", num)));
+                        if (st.has_conn_var(w.name, "CGOR", num))
+                            chk(ratioHolds(CV(w.name, "CGOR", num), CV(w.name, "CGPR", num), CV(w.name, "COPR", num), 0.0), "conn.ratio.CGOR", ak);
+                    }
+                    struct TR { const char* t; const char* r; };
+                    for (const TR& tr : { TR{"COPT", "COPR"}, TR{"CWPT", "CWPR"}, TR{"CGPT", "CGPR"}, TR{"CWIT", "CWIR"}, TR{"CGIT", "CGIR"},
+                                          TR{"CVPT", "CVPR"}, TR{"CVIT", "CVIR"}, TR{"COPTL", "COPRL"}, TR{"CWITL", "CWIRL"} }) {
+                        if (!st.has_conn_var(w.name, tr.t, num) && !st.has(std::string(tr.t) + ":" + w.name + ":" + std::to_string(num))) continue;
+                        const bool compl_ = std::string(tr.t).size() == 5;
+                        const double now = compl_ ? LV(w.name, tr.t, num) : CV(w.name, tr.t, num);
+                        const double rate = compl_ ? LV(w.name, tr.r, num) : CV(w.name, tr.r, num);
+                        const double bef = xbefore[w.name + "/" + tr.t + "/" + std::to_string(k)];
+                        chk(close(now, bef + rate * full * dt), std::string("conn.cumulative.") + tr.t,
+                            ak + " got " + g17(now) + " expected " + g17(bef + rate * full * dt) + " efac " + g17(full));
+                        ++lvlStats["conn.cumulative"];
+                    }
+                    for (const char* key : {"COPR", "CWPR", "CGPR", "CWIR", "CGIR"}) {
+                        complSum[w.complnum(k)][key] += CV(w.name, key, num);
+                        complSum[w.complnum(k)][std::string("abs.") + key] += std::fabs(CV(w.name, key, num));   // connections may cross-flow: error bound of the sum
+                    }
+                    if (!cn) consistent = false;
+                    else for (rt p : {rt::oil, rt::wat, rt::gas}) { const double qv = cn->rates.has(p) ? cn->rates.get(p) : 0.0; if (qv > 0) consistent = false; connTotal[p] += qv; }
+                }
+                // completion vector = sum of the connection vectors of its connections; C…L = W…L of the connection's completion
+                for (const auto& cs : complSum) {
+                    struct LK { const char* l; const char* cl; const char* ck; };
+                    for (const LK& lk : { LK{"WOPRL", "COPRL", "COPR"}, LK{"WWPRL", "CWPRL", "CWPR"}, LK{"WGPRL", "CGPRL", "CGPR"},
+                                          LK{"WWIRL", "CWIRL", "CWIR"}, LK{"WGIRL", "CGIRL", "CGIR"} }) {
+                        const std::string key = std::string(lk.l) + ":" + w.name + ":" + std::to_string(cs.first);
+                        if (!st.has(key)) continue;
+                        chk(std::fabs(st.get(key) - cs.second.at(lk.ck)) <= 1e-12 * cs.second.at(std::string("abs.") + lk.ck), std::string("completion.sum_of_connections.") + lk.l,
+                            a + "/compl" + std::to_string(cs.first) + " " + lk.l + "=" + g17(st.get(key)) + " but sum of " + lk.ck + " = " + g17(cs.second.at(lk.ck)));
+                        ++lvlStats["completion.sum_of_connections"];
+                        for (int k = w.k1; k <= w.k2; ++k)
+                            if (w.complnum(k) == cs.first) {
+                                const std::string ck = std::string(lk.cl) + ":" + w.name + ":" + std::to_string(w.gidx(k) + 1);
+                                if (st.has(ck)) chk(st.get(ck) == st.get(key), std::string("completion.connection_view.") + lk.cl, a + " " + ck);
+                            }
+                    }
+                    for (const auto& tr : { std::pair<const char*, const char*>{"WOPTL", "WOPRL"}, {"WGPTL", "WGPRL"}, {"WWITL", "WWIRL"} }) {
+                        const std::string tk = std::string(tr.first) + ":" + w.name + ":" + std::to_string(cs.first);
+                        if (!st.has(tk)) continue;
+                        const double expect = xbefore[w.name + "/" + tr.first + "/" + std::to_string(cs.first)] + LV(w.name, tr.second, cs.first) * full * dt;
+                        chk(close(st.get(tk), expect), std::string("completion.cumulative.") + tr.first, a + " got " + g17(st.get(tk)) + " expected " + g17(expect));
+                    }
+                }
+                // well vector = sum of its connection vectors where the simulator's numbers are consistent
+                if (consistent) {
+                    struct WK { const char* wk; const char* ck; rt p; };
+                    for (const WK& wk : { WK{"WOPR", "COPR", rt::oil}, WK{"WWPR", "CWPR", rt::wat}, WK{"WGPR", "CGPR", rt::gas} }) {
+                        const double qw = it->second.rates.has(wk.p) ? it->second.rates.get(wk.p) : 0.0;
+                        if (!closeRel(qw, connTotal[wk.p], 1e-13) || qw > 0) continue;
+                        double sum = 0.0; for (int k = w.k1; k <= w.k2; ++k) sum += CV(w.name, wk.ck, w.gidx(k) + 1);
+                        if (!st.has_conn_var(w.name, wk.ck, w.gidx(w.k1) + 1)) continue;
+                        chk(close(W(w.name, wk.wk), sum, 1e-12, 0.0), std::string("well.sum_of_connections.") + wk.wk, a + " " + wk.wk + "=" + g17(W(w.name, wk.wk)) + " sum " + g17(sum));
+                        ++lvlStats["well.sum_of_connections"];
+                    }
+                }
+                // segments
+                if (w.msw)
+                    for (int sno = 1; sno <= w.k2 - w.k1 + 2; ++sno) {
+                        const data::Segment* sg = nullptr;
+                        if (fl) { auto sp = it->second.segments.find(sno); if (sp != it->second.segments.end()) sg = &sp->second; }
+                        const std::string as = a + "/seg" + std::to_string(sno);
+                        struct SR { const char* key; rt p; double f; };
+                        for (const SR& sr : { SR{"SOFR", rt::oil, uc.liq}, SR{"SWFR", rt::wat, uc.liq}, SR{"SGFR", rt::gas, uc.gas} }) {
+                            if (!st.has_segment_var(w.name, sr.key, sno)) continue;
+                            const double qv = (sg && sg->rates.has(sr.p)) ? sg->rates.get(sr.p) : 0.0;
+                            chk(close(SV(w.name, sr.key, sno), -qv * sr.f, 1e-12, 0.0), std::string("segment.rate.") + sr.key, as + " got " + g17(SV(w.name, sr.key, sno)) + " expected " + g17(-qv * sr.f));
+                            ++lvlStats["segment.rate"];
+                        }
+                        using SP = data::SegmentPressures::Value;
+                        struct PK { const char* key; SP v; };
+                        for (const PK& pk : { PK{"SPR", SP::Pressure}, PK{"SPRD", SP::PDrop}, PK{"SPRDH", SP::PDropHydrostatic}, PK{"SPRDF", SP::PDropFriction}, PK{"SPRDA", SP::PDropAccel} })
+                            if (st.has_segment_var(w.name, pk.key, sno))
+                                chk(close(SV(w.name, pk.key, sno), sg ? sg->pressures[pk.v] * pf : 0.0, 1e-12, 0.0), std::string("segment.pressure.") + pk.key, as);
+                        if (st.has_segment_var(w.name, "SWCT", sno)) chk(ratioHolds(SV(w.name, "SWCT", sno), SV(w.name, "SWFR", sno), SV(w.name, "SWFR", sno), SV(w.name, "SOFR", sno)), "segment.ratio.SWCT", as);
+                        if (st.has_segment_var(w.name, "SGOR", sno)) chk(ratioHolds(SV(w.name, "SGOR", sno), SV(w.name, "SGFR", sno), SV(w.name, "SOFR", sno), 0.0), "segment.ratio.SGOR", as);
+                        for (const auto& tr : { std::pair<const char*, const char*>{"SOFT", "SOFR"}, {"SGFT", "SGFR"}, {"SWFT", "SWFR"} }) {
+                            if (!st.has_segment_var(w.name, tr.first, sno)) continue;
+                            const double expect = xbefore[w.name + "/" + tr.first + "/" + std::to_string(sno)] + SV(w.name, tr.second, sno) * full * dt;
+                            chk(close(SV(w.name, tr.first, sno), expect), std::string("segment.cumulative.") + tr.first, as + " got " + g17(SV(w.name, tr.first, sno)) + " expected " + g17(expect));
+                        }
+                    }
+            }
+            // --- regions: sum over the connections in the region of rate x efficiency, clamped to the direction --
+            {
+                struct RK { const char* key; rt p; double f; bool inj; };
+                double sumNum[6] = {0, 0, 0, 0, 0, 0}, sumAbc = 0.0;
+                int ki = 0;
+                for (const RK& rk : { RK{"ROPR", rt::oil, uc.liq, false}, RK{"RWPR", rt::wat, uc.liq, false}, RK{"RGPR", rt::gas, uc.gas, false},
+                                      RK{"ROIR", rt::oil, uc.liq, true}, RK{"RWIR", rt::wat, uc.liq, true}, RK{"RGIR", rt::gas, uc.gas, true} }) {
+                    for (int r = 1; r <= 4; ++r) {
+                        if (!st.has_region_var("FIPNUM", rk.key, r)) continue;
+                        double expect = 0.0;
+                        for (const auto& w : c.wells) {
+                            auto it = wd.find(w.name);
+                            if (it == wd.end()) continue;
+                            // shut wells contribute nothing, whatever their connection results say (as on the W, C, G, F levels)
+                            if (it->second.dynamicStatus == Well::Status::SHUT) {
+                                for (const auto& cn : it->second.connections) if (cn.rates.has(rk.p) && cn.rates.get(rk.p) != 0.0) { ++lvlStats["region.shut_well_with_connection_rates"]; break; }
+                                continue;
+                            }
+                            const double f = known(w) ? w.wefac[s] * groupUp(w.group) : 1.0;
+                            for (const auto& cn : it->second.connections) {
+                                bool mine = false;
+                                for (int k = w.k1; k <= w.k2; ++k) mine = mine || (cn.index == static_cast<std::size_t>(w.gidx(k)) && fipnumOf(w.gidx(k)) == r);
+                                if (!mine) continue;
+                                const double v = (cn.rates.has(rk.p) ? cn.rates.get(rk.p) : 0.0) * f;
+                                if ((v > 0) == rk.inj) expect += rk.inj ? v : -v;
+                            }
+                        }
+                        chk(close(RV("FIPNUM", rk.key, r), expect * rk.f, 1e-11, 0.0), std::string("region.rate.") + rk.key,
+                            at + "/FIPNUM" + std::to_string(r) + " " + rk.key + "=" + g17(RV("FIPNUM", rk.key, r)) + " expected " + g17(expect * rk.f));
+                        ++lvlStats["region.rate"];
+                        chk(RV("FIPNUM", rk.key, r) >= 0.0, "region.nonneg", at);
+                        {
+                            bool anyFlowing = false;
+                            for (const auto& w : c.wells) {
+                                auto it = wd.find(w.name);
+                                if (it == wd.end() || it->second.dynamicStatus == Well::Status::SHUT) continue;
+                                for (int k = w.k1; k <= w.k2; ++k) anyFlowing = anyFlowing || fipnumOf(w.gidx(k)) == r;
+                            }
+                            if (!anyFlowing) {
+                                chk(RV("FIPNUM", rk.key, r) == 0.0, std::string("region.shut_zero.") + rk.key,
+                                    at + "/FIPNUM" + std::to_string(r) + " every well with a connection in the region is SHUT or absent but " + rk.key + "=" + g17(RV("FIPNUM", rk.key, r)));
+                                ++lvlStats["region.shut_zero"];
+                            }
+                        }
+                        sumNum[ki] += RV("FIPNUM", rk.key, r);
+                    }
+                    ++ki;
+                }
+                // two region sets partition the same connections: the sums over the regions agree
+                if (st.has_region_var("FIPABC", "ROPR_ABC", 1)) {
+                    for (int r = 1; r <= 3; ++r) sumAbc += RV("FIPABC", "ROPR_ABC", r);
+                    chk(close(sumNum[0], sumAbc, 1e-11, 0.0), "region.partition.ROPR", at + " sum over FIPNUM " + g17(sumNum[0]) + " sum over FIPABC " + g17(sumAbc));
+                    ++lvlStats["region.partition"];
+                }
+                for (int r = 1; r <= 4; ++r)
+                    for (const auto& tr : { std::pair<const char*, const char*>{"ROPT", "ROPR"}, {"RGPT", "RGPR"}, {"RWPT", "RWPR"}, {"ROIT", "ROIR"}, {"RGIT", "RGIR"}, {"RWIT", "RWIR"} }) {
+                        if (!st.has_region_var("FIPNUM", tr.first, r)) continue;
+                        const double expect = xbefore[std::string("R/") + tr.first + "/" + std::to_string(r)] + RV("FIPNUM", tr.second, r) * dt;
+                        chk(close(RV("FIPNUM", tr.first, r), expect), std::string("region.cumulative.") + tr.first, at + "/FIPNUM" + std::to_string(r) + " got " + g17(RV("FIPNUM", tr.first, r)) + " expected " + g17(expect));
+                    }
+            }
+            // --- network nodes ---------------------------------------------------------------------------------
+            for (const auto& g : c.groups) {
+                auto np = net.nodeData.find(g.name);
+                if (st.has_group_var(g.name, "GPR")) { chk(close(G(g.name, "GPR"), np == net.nodeData.end() ? 0.0 : np->second.pressure * pf, 1e-12, 0.0), "node.GPR", at + "/" + g.name); ++lvlStats["node.pressure"]; }
+                if (st.has_group_var(g.name, "NPR")) chk(close(G(g.name, "NPR"), np == net.nodeData.end() ? 0.0 : np->second.converged_pressure * pf, 1e-12, 0.0), "node.NPR", at + "/" + g.name);
+            }
+
             // --- groups: hierarchy -----------------------------------------------------------
             for (size_t gi = 0; gi < c.groups.size(); ++gi) {
                 const auto& g = c.groups[gi];
@@ -730,11 +1261,33 @@ int runProp(uint64_t seed, bool thorough, const std::string& outdir) {
                 }
             }
         }
+        // --- units written to the SMSPEC file: polymer / brine connection vectors are mass rates and masses,
+        //     like the W/G/F ones ("values are reported in deck units": the label must be the unit of the value)
+        {
+            writer.add_timestep(st, c.nsteps, false);
+            writer.write(true);
+            EclIO::EclFile f(outdir + "/PCASE.SMSPEC");
+            f.loadData();
+            const auto kw = f.get<std::string>("KEYWORDS");
+            const auto un = f.get<std::string>("UNITS");
+            const std::string massRate = c.units == "FIELD" ? "LB/DAY" : (c.units == "LAB" ? "G/HR" : "KG/DAY");
+            const std::string mass = c.units == "FIELD" ? "LB" : (c.units == "LAB" ? "G" : "KG");
+            static const std::set<std::string> rateKw = {"CCIR", "CCPR", "CSIR", "CSPR", "WCIR", "WCPR", "WSIR", "WSPR", "GCIR", "GCPR", "GSIR", "GSPR", "FCIR", "FCPR", "FSIR", "FSPR"};
+            static const std::set<std::string> totKw = {"CCIT", "CCPT", "CSIT", "CSPT", "WCIT", "WCPT", "WSIT", "WSPT", "GCIT", "GCPT", "GSIT", "FCIT", "FCPT", "FSIT", "FSPT"};
+            std::set<std::string> seen;
+            for (size_t i = 0; i < kw.size() && i < un.size(); ++i) {
+                if (!seen.insert(kw[i]).second) continue;
+                if (rateKw.count(kw[i])) { chk(un[i] == massRate, "smspec.unit." + kw[i], tag + " unit of " + kw[i] + " in the SMSPEC file is [" + un[i] + "], the values are " + massRate); ++lvlStats["smspec.unit"]; }
+                if (totKw.count(kw[i])) { chk(un[i] == mass, "smspec.unit." + kw[i], tag + " unit of " + kw[i] + " in the SMSPEC file is [" + un[i] + "], the values are " + mass); ++lvlStats["smspec.unit"]; }
+            }
+        }
     }
     std::ofstream ps(outdir + "/prop_stats.json");
     ps << "{\n  \"checked\": " << log.checked << ",\n  \"failed\": " << log.failed << ",\n  \"cases\": " << ncases
        << ",\n  \"ratio_checks\": {";
     { bool first = true; for (const auto& kv : ratioStats) { ps << (first ? "" : ", ") << "\"" << kv.first << "\": " << kv.second; first = false; } }
+    ps << "},\n  \"level_checks\": {";
+    { bool first = true; for (const auto& kv : lvlStats) { ps << (first ? "" : ", ") << "\"" << kv.first << "\": " << kv.second; first = false; } }
     ps << "}"
        << ",\n  \"outside_quantifier_brine_energy_totals_checked\": " << noted_checked
        << ",\n  \"outside_quantifier_brine_energy_totals_without_efac\": " << noted_dev << "\n}\n";
